@@ -28,6 +28,7 @@ RULE += '; programs may re-seed the global random generator; identifiers of all 
 RULE += '; records must pass through the Logger object given to the scope; further outermost scopes after the first tree was released'
 RULE += '; child loggers of the outermost scope names exist beforehand; UUID-spelled own trace ids'
 RULE += '; cases with the root logger at WARNING and verbose scope loggers'
+RULE += '; cases without any logging handler (records must reach the handler of last resort)'
 LEVEL_TEXT = (
     "Reference walk: for every log call exactly one record must be captured, on the expected logger (own, else nearest "
     "enclosing, else the one named after the outermost scope; root logger outside any scope) and no other, at the "
@@ -43,6 +44,8 @@ REQUIRED_CLASSES = ["override-logger", "override-trace", "inherit-2-levels", "pe
 
 SINK: list = []
 _HANDLER = P.Capture(SINK)
+_LAST = P.Capture(SINK)
+_LAST.setLevel(logging.WARNING)  # as logging.lastResort
 
 
 class LogRun(P.Run):
@@ -50,7 +53,7 @@ class LogRun(P.Run):
 
     def __init__(self, prog, loop):
         super().__init__(prog, loop)
-        self.handler = _HANDLER
+        self.handler = None if prog.get("unconfigured") else _HANDLER
 
 
 def run_case(case) -> Outcome:
@@ -66,13 +69,24 @@ def run_case(case) -> Outcome:
             logging.getLogger(op["name"] + ".hvchild")
     root = logging.getLogger()
     old_level = root.level
-    root.setLevel(logging.WARNING if case.get("root_warning") else logging.DEBUG)
-    root.addHandler(_HANDLER)
+    root.setLevel(logging.WARNING if (case.get("root_warning") or case.get("unconfigured")) else logging.DEBUG)
+    # "unconfigured": the program never configured logging - NO handler anywhere. Python's logging then hands WARNING and above
+    # to its handler of last resort (stderr): that is where those lines must arrive
+    saved_handlers, saved_last = root.handlers[:], logging.lastResort
+    if case.get("unconfigured"):
+        root.handlers.clear()
+        logging.lastResort = _LAST
+    else:
+        root.addHandler(_HANDLER)
     del SINK[:]
     try:
         run, res = P.execute(case, run_cls=LogRun)
     finally:
-        root.removeHandler(_HANDLER)
+        if case.get("unconfigured"):
+            logging.lastResort = saved_last
+            root.handlers[:] = saved_handlers
+        else:
+            root.removeHandler(_HANDLER)
         root.setLevel(old_level)
     records = list(SINK)
     del SINK[:]
@@ -169,8 +183,10 @@ def run_case(case) -> Outcome:
             own = ms is not None and any(ops[q].get("logger") for q in [*lineage(tuple(ms)), tuple(ms)])
             if not own:
                 continue
+        if case.get("unconfigured") and e["level"] in ("debug", "info") and len(mine) == 0:
+            continue  # below the last-resort handler's level: dropped by (the absence of) the logging configuration
         if len(mine) == 0:
-            out.violate("lost", f"C19.lost/no-record/{where}", f"token {token} level {e['level']}")
+            out.violate("lost", f"C19.lost/no-record/{where}{'/no-handler-configured' if case.get('unconfigured') else ''}", f"token {token} level {e['level']}")
             continue
         if len(mine) > 1:
             names = sorted({r.name for r, _, _ in mine})
@@ -289,7 +305,8 @@ def strategy(tier):
         return {"body": [*first["body"], {"k": "yield"}, {"k": "gc"}, tree(1), {"k": "yield"}, {"k": "gc"}, tree(2)]}
 
     quiet_root = one_tree.map(lambda c: {**c, "root_warning": True})
-    return st.one_of(one_tree, one_tree, one_tree, quiet_root, one_tree.map(then_more_trees))
+    unconfigured = one_tree.map(lambda c: {**c, "unconfigured": True})
+    return st.one_of(one_tree, one_tree, one_tree, quiet_root, one_tree.map(then_more_trees), unconfigured)
 
 
 def budget(tier):
